@@ -387,23 +387,30 @@ private:
       //       and the seq-cst fence (3)
       XENIUM_THREAD_FENCE(std::memory_order_acquire);
 
+      // The orphans of the slot that gets reused by new_epoch have to be detached _before_ new_epoch is
+      // published. As soon as other threads can observe new_epoch, they can add nodes that were retired
+      // in new_epoch to the same slot, and those nodes must not be reclaimed yet.
+      auto& orphan_list = orphans[new_epoch % number_epochs];
+      auto* nodes = orphan_list.adopt();
+
       // (7) - this release-CAS synchronizes-with the acquire-load (5)
       bool success = global_epoch.compare_exchange_strong(
         curr_epoch, new_epoch, std::memory_order_release, std::memory_order_relaxed);
       if (XENIUM_LIKELY(success)) {
-        reclaim_orphans(new_epoch);
+        detail::delete_objects(nodes);
+      } else if (nodes != nullptr) {
+        // some other thread has updated the epoch -> hand the nodes back
+        auto* last = nodes;
+        while (last->next != nullptr) {
+          last = last->next;
+        }
+        orphan_list.add({nodes, last});
       }
     }
     return new_epoch;
   }
 
   void add_retired_node(detail::deletable_object* p) { retire_lists[local_epoch_idx].push(p); }
-
-  void reclaim_orphans(epoch_t epoch) {
-    auto idx = epoch % number_epochs;
-    auto* nodes = orphans[idx].adopt();
-    detail::delete_objects(nodes);
-  }
 
   unsigned critical_entries_since_update = 0;
   unsigned nested_critical_entries = 0;
